@@ -1243,6 +1243,13 @@ def fam_bad(tier, seed):
                                          Rule("L", Choice(Seq(Call("L"), Lit("a")), Lit("b")), leftrec=True, string=True)],
            "code" if ok else "error", derives=",".join(dl) if dl else "", derives_list=dl)
         mk("R8_plain_%s" % dn, [Rule("S", Call("A", "x"), export=True), A()], "code", derives=",".join(dl) if dl else "", derives_list=dl)
+    # R13 entries of the derive list: trait names and paths to traits are fine, anything else is an error (not a panic)
+    for dn, dl, ok in (("path", ["Debug", "Clone", "std::cmp::PartialEq"], True), ("absolute_path", ["::core::fmt::Debug", "Clone"], True),
+                       ("crate_path", ["Clone", "crate::my::Trait"], True), ("with_space", ["Debug Clone"], False),
+                       ("digit_first", ["Debug", "1abc"], False), ("generic", ["Into<u8>", "Clone"], False),
+                       ("path_with_bad_segment", ["serde::9"], False), ("trailing_colons", ["Clone::"], False)):
+        mk("R13_derive_%s" % dn, [Rule("S", Call("A", "x"), export=True), A()], "code" if ok else "error",
+           derives=",".join(dl), derives_list=dl, badderive=not ok)
     # R9 non-ASCII case-insensitive literals
     mk("R9_ci_nonascii_char", [Rule("S", Lit("é", ci=True), export=True)], "error")
     mk("R9_ci_nonascii_str", [Rule("S", Lit("aé", ci=True), export=True)], "error")
@@ -1348,7 +1355,7 @@ def fam_term(tier, seed):
         return al
 
     lits = ["a", "Z", "_", "{", "@", "1", "\n", "~", "\x7f", "é", "ab", "a_", "a{", "@a", "a1", "a\nb", "z~", "_x_", "Az",
-            "aé", "[]", "A-Z", "`", "^_"]
+            "aé", "[]", "A-Z", "`", "^_", "'", '"', "\\", "#", ";", "|", "\x00", "a\x00b", "'\"", "\\n", "#;", "\U0010ffff", "\ufeff"]
     for i, l in enumerate(lits):
         for ci in (False, True):
             if ci and not l.isascii():
@@ -1385,13 +1392,29 @@ def fam_term(tier, seed):
                 out.append(g)
     ranges = [("a", "z"), ("A", "Z"), ("0", "9"), ("@", "["), ("`", "{"), ("\x00", "\x1f"), ("~", "\x80"), ("z", "é"),
               ("a", "a"), ("b", "a"), ("\x7f", "\u0800"), ("\u07ff", "\uffff"), ("\ud7ff", "\ue000"), ("\uffff", "\U00010000"),
-              ("\U00010000", "\U0010ffff"), ("\x01", "\U0010fffe")]
+              ("\U00010000", "\U0010ffff"), ("\x01", "\U0010fffe"), ("\x00", "a"), ("\x00", "\x00"), ("\U0010ffff", "\U0010ffff"),
+              ("\ue000", "\U0010ffff"), ("\x00", "\ud7ff"), ("'", "\\")]
     for lo, hi in ranges:
         body = Seq(Range(lo, hi), Opt(Range(lo, hi)))
         g = Grammar("term_%04d" % len(out), [Rule("S", body, export=True, position=True, no_skip_ws=True)], root="S",
                     maxlen=maxlen, meta={"shape": "range_%r_%r" % (lo, hi)})
         g.alpha = near([lo, hi])[:6]
         add_extras(g, rnd, 10, 3, 6)
+        if well_formed(g):
+            out.append(g)
+    # @char classes: overlapping and descending parts, single characters next to ranges, a class inside a class
+    classes = [("overlap", [("range", "a", "m"), ("range", "g", "z")]), ("descending", [("range", "x", "z"), ("range", "a", "c"), ("lit", "m")]),
+               ("touching", [("range", "a", "c"), ("range", "d", "f")]), ("one_apart", [("range", "a", "c"), ("range", "e", "g")]),
+               ("lit_inside_range", [("range", "a", "z"), ("lit", "m"), ("lit", "A")]), ("single", [("lit", "q")]),
+               ("ends", [("lit", "\x00"), ("lit", "\U0010ffff"), ("range", "\x7f", "\x80")]),
+               ("nested", [("ref", "D"), ("lit", "_"), ("range", "0", "1")])]
+    for cn, parts in classes:
+        rules = [Rule("S", Seq(Call("C", "c"), Opt(Call("C", "d")), Opt(Call("char", "e"))), export=True, position=True, no_skip_ws=True),
+                 CharRule("C", parts), CharRule("D", [("range", "a", "b"), ("lit", "y")])]
+        g = Grammar("term_%04d" % len(out), rules, root="S", maxlen=2, meta={"shape": "class_" + cn})
+        chars = [x for pt in parts if pt[0] != "ref" for x in pt[1:]]
+        g.alpha = near(chars + (["a", "y"] if cn == "nested" else []))[:8]
+        add_extras(g, rnd, 10, 3, 5)
         if well_formed(g):
             out.append(g)
     return out
@@ -2078,6 +2101,28 @@ def fam_big(tier, seed):
         mk("%d_memoized_rules" % n, [Rule("S", Choice(*([Seq(Call("M%d" % i, "m"), Lit("!")) for i in range(n)] + [Seq(Call("M%d" % (n - 1), "m"), Lit("?"))])),
                                           export=True, no_skip_ws=True)] + ms,
            ["a", "!", "?", "z"], ["a" + letters[(n - 1) % 26] + "?", "a" + letters[(n - 1) % 26] + "!", "ab!", "aa?", "az?"], maxlen=2)
+    # rule graphs: one rule called from many places, long recursion cycles, diamonds, a rule both included and called
+    mk("graph_rule_called_12_times", [Rule("S", Seq(*[Call("A", "f%d" % (i % 5)) if i % 3 else Call("A") for i in range(12)]), export=True, no_skip_ws=True),
+                                      Rule("A", Seq(Lit("a"), Opt(Lit("b"))), no_skip_ws=True, position=True, memoize=True)],
+       ["a", "b"], ["a" * 12, "ab" * 12, "a" * 11, "a" * 13, "ab" * 6 + "a" * 6, "ab" * 11 + "b"])
+    mk("graph_cycle_of_4_rules", [Rule("S", Seq(Call("P", "p"), Eoi()), export=True, no_skip_ws=True),
+                                  Rule("P", Seq(Lit("a"), Opt(Call("Q", "q"))), no_skip_ws=True),
+                                  Rule("Q", Seq(Lit("b"), Opt(Call("R", "r", boxed=True))), no_skip_ws=True),
+                                  Rule("R", Choice(Seq(Lit("c"), Call("T", "t")), Lit("!")), no_skip_ws=True),
+                                  Rule("T", Seq(Neg(Lit("c")), Call("P", "p", boxed=True)), no_skip_ws=True, memoize=True)],
+       ["a", "b", "c", "!"], ["abcabcab!", "abcab", "abcabc", "abab", "abcabcabcabcab", "abcc"])
+    mk("graph_diamond", [Rule("S", Choice(Seq(Call("X", "x"), Lit("!")), Call("Y", "y")), export=True),
+                         Rule("X", Seq(Lit("<"), Call("Z", "z")), position=True), Rule("Y", Seq(Lit("<"), Call("Z", "z"), Opt(Call("Z", "w")))),
+                         Rule("Z", Seq(Lit("a"), Clo(Lit("a"))), string=True, memoize=True, no_skip_ws=True)],
+       ["<", "a", "!", " "], ["<aa!", "<aa", "< aa a", "<a a!", "<aa a !"])
+    mk("graph_included_and_called", [Rule("S", Seq(Inc("I"), Lit(","), Call("I", "i"), Opt(Seq(Lit(","), Inc("I")))), export=True),
+                                     Rule("I", Seq(Call("A", "x"), Opt(Call("B", "y"))), position=True, memoize=True),
+                                     Rule("A", Lit("a")), Rule("B", Lit("b"), position=True)],
+       ["a", "b", ",", " "], ["a,a", "ab,ab,ab", "a b , a", "ab,a,b", "a,ab,"])
+    mk("graph_lookahead_closure_field", [Rule("S", Seq(Pos(Seq(Call("W"), Lit("!"))), Clo(Seq(Call("W", "ws"), Opt(Lit(",")))), Lit("!"), Neg(Call("W"))),
+                                              export=True, no_skip_ws=True),
+                                         Rule("W", Seq(Lit("a"), Clo(Lit("a"))), string=True, no_skip_ws=True, memoize=True)],
+       ["a", ",", "!"], ["a!", "aa,a!", "a,a,a!", "a!a", "aa", "a,!"])
     # many checks on one rule
     P = "verif_common::oracles::"
     always = {"o": "always", "path": P + "chk_always", "name": P + "chk_always"}
